@@ -1,1 +1,45 @@
-From Emd Require Import Base.Prelude Model.H5 Model.Emd Model.Reader.
+(* C01 -- tree round-trip: every node comes back at its path with its class.  Statements only.
+   PARTIAL: the writer half is proved (what is in the file, for every tree); the reader half
+   (populate / read on the encoded file) is tied by the correspondence check and the oracle only. *)
+From Emd Require Import Base.Prelude Model.H5 Model.Emd Generated.Tables Proofs.PTree.
+
+(* ok_tree: sibling names pairwise distinct and distinct from the datasets / bundle their parent writes
+   (the latter is the documented format limitation F18). *)
+
+(* the recursive writer stores the whole branch below a node, each child inside its parent's group *)
+Theorem C01_writer_stores_whole_branch :
+  forall n, ok_tree n -> write_tree n (node_shallow n) = Ok (enc n).
+Proof. exact write_tree_enc. Qed.
+Print Assumptions C01_writer_stores_whole_branch.
+
+(* a saved tree is: the header and one top-level group holding the encoded tree *)
+Theorem C01_saved_file :
+  forall c root tr, rcls root = CRoot -> ok_tree root -> tr <> Some false ->
+    fresh_file c root [] tr = Ok (G (header c) [(rname root, enc root)]).
+Proof. exact fresh_file_whole_tree. Qed.
+Print Assumptions C01_saved_file.
+
+(* in the file each node is the HDF5 group at /<root name><node path>, tagged with its class *)
+Theorem C01_each_node_is_the_group_at_its_path :
+  forall c root p k, rcls root = CRoot -> ok_tree root -> rwalk root p = Some k ->
+    exists f, fresh_file c root [] (Some true) = Ok f /\
+              lookup f (rname root :: p) = Some (enc k) /\
+              oattrs (enc k) = tags (gtype (rcls k)) (pyclass (rcls k)).
+Proof. exact file_layout. Qed.
+Print Assumptions C01_each_node_is_the_group_at_its_path.
+
+(* no node added, moved or flattened: a node's group links exactly its own datasets/bundle and its children *)
+Theorem C01_group_links_are_own_content_and_children :
+  forall n, keys (olinks (enc n)) = keys (shallow_links n) ++ map rname (rkids n).
+Proof. exact enc_links. Qed.
+Print Assumptions C01_group_links_are_own_content_and_children.
+
+(* non-vacuity *)
+Definition ex_tree : rnode :=
+  RN CRoot "r" 0%Z 0 [("m1", 5%Z)] [ RN CArray "a b" 7%Z 2 [] [ RN CPl "p" 8%Z 0 [] [] ]; RN CNode "n" 0%Z 0 [("m", 9%Z)] [] ].
+Example C01_hypotheses_satisfiable : rcls ex_tree = CRoot /\ ok_tree ex_tree /\ rwalk ex_tree ["a b"; "p"] = Some (RN CPl "p" 8%Z 0 [] []).
+Proof.
+  split; [reflexivity|]. split; [|reflexivity].
+  cbn. repeat split; try (repeat constructor; cbn; intuition discriminate); try (intros k [<-|[<-|[]]]; cbn; intuition discriminate);
+    try (intros k [<-|[]]; cbn; intuition discriminate); try (intros k []).
+Qed.
